@@ -13,12 +13,13 @@ Case: `(word (nData nColors atoms setup ops) pyout)`.
 
 Observation `((D d…) (G (label style tree)…) (E pos…) (S ((pos shared mask)…)…) (M mode))`.
 
-Answer: `impl` = the same structure predicted by the model (`Impl` = code with the F4 fix; line
-tag `wordold` runs the model of the code before it, `wordideal` the model with the ideal
-`AddData` / `RemoveData` — both used by hand only, see props.d/C13/design.md), `ok` = the zipper Spec on the **python**
-observations, `implok` = the zipper Spec on the model's trace, `p` = the history is inside the
-hypothesis of `zipper_refinement_partial` (`cleanWord`), `br` = features of the history, `blame` =
-the kind of command undone / redone at the first step the Spec rejects in the python trace. -/
+Answer: `impl` = the same structure predicted by the model (`Impl` = the code with `fix: F4` and
+`fix: F4b`; line tag `wordpre` runs the model of the code with the first fix only, `wordold` the
+model of the code before both — used by hand only, see props.d/C13/design.md), `ok` = the zipper
+Spec on the **python** observations, `implok` = the zipper Spec on the model's trace, `p` = the
+starting session is well-formed (`zipper_refinement` has no hypothesis on the history; for
+`wordpre` / `wordold` also `cleanWord`), `br` = features of the history, `blame` = the kind of
+command undone / redone at the first step the Spec rejects in the python trace. -/
 open GlueVerif GlueVerif.Sexp GlueVerif.C13Undo
 
 def modeOf? : Sexp → Option Mode
@@ -188,18 +189,18 @@ def runCase (S : Sem) (cl : CmdSpec → Body → Bool) (nd nc atomsE : Sexp) (se
               flag "r" (pre "redo:" && !has "redo:empty") ++
               flag "e" (has "undo:empty" || has "redo:empty") ++
               flag "t" w.trunc ++
-              flag "x" (!p)
+              flag "x" (has "undo:remove-nonlast" || has "undo:add-present" || has "undo:remove-absent")
     result impl ok implok p br blame
   | _, _, _, _, _ => driverError "word-args"
 
 def step (line : String) : String :=
   match Sexp.parse line with
   | some (.list [.atom "word", .list [nd, nc, atoms, .list setup, .list ops], pyout]) =>
-    runCase Impl clean nd nc atoms setup ops pyout
+    runCase Impl (fun _ _ => true) nd nc atoms setup ops pyout
+  | some (.list [.atom "wordpre", .list [nd, nc, atoms, .list setup, .list ops], pyout]) =>
+    runCase PreF4b clean nd nc atoms setup ops pyout
   | some (.list [.atom "wordold", .list [nd, nc, atoms, .list setup, .list ops], pyout]) =>
     runCase Old clean nd nc atoms setup ops pyout
-  | some (.list [.atom "wordideal", .list [nd, nc, atoms, .list setup, .list ops], pyout]) =>
-    runCase Ideal (fun _ _ => true) nd nc atoms setup ops pyout
   | _ => driverError "unknown-family"
 
 def main : IO Unit := driverLoop step
